@@ -215,6 +215,7 @@ def _do_action(rule, key, frame_getter):
 # sys.monitoring LINE callback
 # --------------------------------------------------------------------------
 _codes = {}
+_wmark_n = {}
 _counts = {}  # (key, thread role) -> n
 _MPQ = os.sep + os.path.join("multiprocessing", "queues.py")
 _MPP = os.sep + os.path.join("multiprocessing", "process.py")
@@ -290,7 +291,12 @@ def _on_line(code, line):
         if mk is not None:
             if mk == "announce":
                 _ann = 1
-            log("wmark", name=mk)
+            # a worker that can never take the management lock walks through its time-out branch for ever: such a loop
+            # must not count as progress of the tree (stall watchdog), so a mark is logged at most 30 times per process
+            n = _wmark_n.get(mk, 0) + 1
+            _wmark_n[mk] = n
+            if n <= 30:
+                log("wmark", name=mk, n=n)
     if PROFILE:
         ck = (key, _thread_role(_thname()))
         c = _counts.get(ck, 0)
